@@ -2,7 +2,7 @@
 from checks.hub_common import run_hub, replay_hub
 
 PID = "C01"
-RULE = ("2–4 concurrent clients run seeded random programs (begin opt/pess × 2pc/async/1pc, get/bget/iter/riter/set/insert/delete/lock/commit/rollback) over ≤ 5 shared keys on 1–3 regions (1 or 3 stores); the scheduler picks the RPC interleaving; occasional split, leader move, dropped idempotent request, injected region error, client crash (then the clock passes every TTL). The judge replays every RPC on the Lean MVCC model (answers must agree) and evaluates the C01 history oracle on the api-level history at `quiesce`; a case = one `# case`. PLUS an exhaustive part (evidence keys `exhaustive_enumeration` (profile mock) and `exhaustive_enumeration_full`; their flag `exhaustive` is true only for that enumerated sub-space): every RPC interleaving of every pair (thorough: and some triples) of small programs, enumerated by DFS with a controlled scheduler — see `sub_space` there; each schedule is one case judged like the sampled ones; borrowed families: agg-expire (every 12th scenario), relock (LockKeys over held + new keys that fails, statement retry, `audit held` after every lock call, an intruder probing a held key), the directed async-recovery family (profile full); oracles also: locking-read, own-scan (a transaction's iter/riter = snapshot overlaid with its buffered writes), audit held; after the sampled part the RPC interleavings of small program multisets are ENUMERATED (controlled scheduler + DFS with replay, see coverage.exhaustive_enumeration*); round 3: agg-retry family with the options changing between attempts (fair locking retried after locked-with-conflict, other flags / keys) and the committed-primary family (readers and lockers meeting locks whose primary is already committed)")
+RULE = ("2–4 concurrent clients run seeded random programs (begin opt/pess × 2pc/async/1pc, get/bget/iter/riter/set/insert/delete/lock/commit/rollback) over ≤ 5 shared keys on 1–3 regions (1 or 3 stores); the scheduler picks the RPC interleaving; occasional split, leader move, dropped idempotent request, injected region error, client crash (then the clock passes every TTL). The judge replays every RPC on the Lean MVCC model (answers must agree) and evaluates the C01 history oracle on the api-level history at `quiesce`; a case = one `# case`. PLUS an exhaustive part (evidence keys `exhaustive_enumeration` (profile mock) and `exhaustive_enumeration_full`; their flag `exhaustive` is true only for that enumerated sub-space): every RPC interleaving of every pair (thorough: and some triples) of small programs, enumerated by DFS with a controlled scheduler — see `sub_space` there; each schedule is one case judged like the sampled ones; borrowed families: agg-expire (every 12th scenario), relock (LockKeys over held + new keys that fails, statement retry, `audit held` after every lock call, an intruder probing a held key), the directed async-recovery family (profile full); oracles also: locking-read, own-scan (a transaction's iter/riter = snapshot overlaid with its buffered writes), audit held; after the sampled part the RPC interleavings of small program multisets are ENUMERATED (controlled scheduler + DFS with replay, see coverage.exhaustive_enumeration*); round 3: agg-retry family with the options changing between attempts (fair locking retried after locked-with-conflict, other flags / keys) and the committed-primary family (readers and lockers meeting locks whose primary is already committed); round 4: lock-if-exists-first family (first lock call LockOnlyIfExists on a missing key, real primary chosen later, ManagedLockTTL 20 ms, clock steps + wall-clock heart-beats, `audit heartbeat`, an intruder locking a held key, `audit held`); committed-primary scenarios with the BatchGet answer handed over in its other legal form (lock error at response level, `# lifted`)")
 
 
 def run(a):
